@@ -136,7 +136,7 @@ theorem readChunk_clean (f : Bytes) (pos : Nat) (e : PyErr) (h : readChunk f pos
     · cases h; rfl
     · cases h
 
-theorem tracksLoop_clean (f : Bytes) (format : Nat) : ∀ (n pos : Nat) (first : Option (List Ev)) (e : PyErr),
+theorem tracksLoop_clean (f : Bytes) (format : Nat) : ∀ (n pos : Nat) (first : Option (List (Nat × Nat))) (e : PyErr),
     tracksLoop f format n pos first = .error e → e = .mutagen := by
   intro n
   induction n with
